@@ -65,6 +65,29 @@ func caseLabels(info *types.Info, sw *core.SwitchInfo) []string {
 	return out
 }
 
+// callsSymbolOfNegative: v is symbol(vs[0]) where vs is the counter's Negative descriptor (the prefix).
+func callsSymbolOfNegative(v ssa.Value) bool {
+	call, ok := v.(*ssa.Call)
+	if !ok || call.Common().StaticCallee() == nil || call.Common().StaticCallee().Name() != "symbol" || len(call.Call.Args) != 1 {
+		return false
+	}
+	// argument is element 0 of a [2]NamedString
+	arg := call.Call.Args[0]
+	if u, ok := arg.(*ssa.UnOp); ok {
+		if ia, ok := u.X.(*ssa.IndexAddr); ok {
+			if k, ok := core.ConstInt(ia.Index); ok && k == 0 {
+				return true
+			}
+		}
+	}
+	if ix, ok := arg.(*ssa.Index); ok {
+		if k, ok := core.ConstInt(ix.Index); ok && k == 0 {
+			return true
+		}
+	}
+	return false
+}
+
 func c19(c *core.Check) {
 	p := c.Prog
 	c.Explain = "Structural necessary conditions of counter rendering, decided on the type-checked source: no integer division or modulo of css/counters can see a zero divisor and no modulo result that indexes the symbol list can be negative (path-condition reachability under the scenarios divisor==0 / dividend<0, with coinductive reasoning on loop-carried values); the vocabulary of counter systems agrees between the @counter-style validator, symbols(), Validate and the renderer; each system name dispatches to its algorithm, the negative-sign set and the automatic ranges are those of Counter Styles 3; the extends and fallback walks consult and extend a visited set. The arithmetic of each system and counter scoping are not decided."
@@ -183,6 +206,83 @@ func c19(c *core.Check) {
 	})
 	r2b.Cond(strings.Join(negSet, ",") == "additive,alphabetic,numeric,symbolic", "systems using a negative sign", p.Pos(rv.Pos()), strings.Join(negSet, ","), "set is {"+strings.Join(negSet, ",")+"}, Counter Styles 3 §2.1: symbolic, alphabetic, numeric, additive")
 	r2b.Cond(minRange["alphabetic"] == "1" && minRange["symbolic"] == "1" && minRange["additive"] == "0" && len(minRange) == 3, "automatic range lower bounds", p.Pos(rv.Pos()), fmt.Sprint(minRange), fmt.Sprintf("lower bounds %v, Counter Styles 3 §2.2: alphabetic/symbolic 1, additive 0, others unbounded", minRange))
+
+	// pad before negative sign (Counter Styles 3 §2 step 4 then 5)
+	{
+		var negConcat *ssa.BinOp
+		core.Instrs(rv, func(in ssa.Instruction) {
+			b, ok := in.(*ssa.BinOp)
+			if !ok || b.Op != token.ADD {
+				return
+			}
+			// (negativePrefix + initial) + negativeSuffix : the inner concatenation has the prefix as left operand
+			if inner, ok := b.X.(*ssa.BinOp); ok && inner.Op == token.ADD {
+				if bt, ok := b.Type().Underlying().(*types.Basic); ok && bt.Info()&types.IsString != 0 {
+					if core.DerivesFrom(inner.X, func(v ssa.Value) bool { return callsSymbolOfNegative(v) }) {
+						negConcat = inner
+					}
+				}
+			}
+		})
+		if negConcat == nil {
+			r2b.Fail("negative sign wraps the padded representation", p.Pos(rv.Pos()), "no negativePrefix + initial + negativeSuffix concatenation found")
+		} else {
+			padded := core.DerivesFrom(negConcat.Y, func(v ssa.Value) bool {
+				call, ok := v.(*ssa.Call)
+				return ok && call.Common().StaticCallee() != nil && call.Common().StaticCallee().Name() == "Repeat"
+			})
+			r2b.Cond(padded, "negative sign wraps the padded representation", p.Pos(negConcat.Pos()), "the text wrapped by the negative prefix/suffix includes the pad symbols (step 4 before step 5)", "the negative sign is added before padding: pad symbols end up outside the sign (-7 padded to 4 gives 00-7 instead of -007)")
+		}
+	}
+
+	// ---- R5 counter-set / counter-increment instances are scoped
+	r5 := c.Rule("R5", "when boxes.UpdateCounters creates a counter instance for counter-set / counter-increment (no instance in scope) it registers the name in the sibling scope, so that the instance is removed when the parent element ends", 2)
+	if uc := p.Fn("html/boxes", "UpdateCounters"); uc != nil {
+		setAdd := p.Method("utils", "Set", "Add")
+		n := 0
+		core.Instrs(uc, func(in ssa.Instruction) {
+			call, ok := in.(*ssa.Call)
+			if !ok {
+				return
+			}
+			bi, ok := call.Call.Value.(*ssa.Builtin)
+			if !ok || bi.Name() != "append" || len(call.Call.Args) != 2 {
+				return
+			}
+			// append(values, 0): the appended slice literal holds the constant 0
+			isZeroLit := false
+			if sl, ok := call.Call.Args[1].(*ssa.Slice); ok {
+				if al, ok := sl.X.(*ssa.Alloc); ok && al.Referrers() != nil {
+					for _, rr := range *al.Referrers() {
+						if ia, ok := rr.(*ssa.IndexAddr); ok && ia.Referrers() != nil {
+							for _, r3 := range *ia.Referrers() {
+								if st, ok := r3.(*ssa.Store); ok {
+									if k, ok := core.ConstInt(st.Val); ok && k == 0 {
+										isZeroLit = true
+									}
+								}
+							}
+						}
+					}
+				}
+			}
+			if !isZeroLit {
+				return
+			}
+			n++
+			// an Add call in the same block (the creation branch)
+			hasAdd := false
+			for _, i2 := range call.Block().Instrs {
+				if c2, ok := i2.(*ssa.Call); ok && c2.Common().StaticCallee() == setAdd {
+					hasAdd = true
+				}
+			}
+			r5.Cond(hasAdd, "UpdateCounters | new instance registered in the sibling scope", p.Pos(call.Pos()), "siblingScopes.Add(name) in the branch that creates the instance", "the instance created here is never recorded in the sibling scope: it outlives its parent element")
+		})
+		r5.Cond(n >= 2, "UpdateCounters creates instances for counter-set and counter-increment", p.Pos(uc.Pos()), fmt.Sprint(n), fmt.Sprintf("%d creation sites found", n))
+	} else {
+		r5.Anchor("html/boxes.UpdateCounters")
+	}
 
 	// ---- R3 visited sets
 	r3 := c.Rule("R3", "resolveCounter refuses a counter name already in previousTypes and records the name before returning it; its extends loop and renderValue's extends loop test and extend previousTypes on every iteration; renderValue's fallback recursion passes the same set on", 6)
